@@ -50,6 +50,9 @@ type scenario struct {
 	// prior: this many earlier queries on the same client were answered by a server exception
 	// (which leaves the client open), so per-query state of the client has been used before.
 	prior int
+	// producerWaits: the streaming callback waits for its next batch or for the end of its
+	// context, whichever comes first (a producer fed from a channel).
+	producerWaits bool
 }
 
 var scenarioNames = []string{"select", "insert", "stream-insert"}
@@ -80,6 +83,10 @@ type gatedRun struct {
 	packets         int
 	inputDone       bool
 	started         bool
+	// waiting producer (scenario.producerWaits)
+	batchReady      chan struct{}
+	producerWaiting bool
+	withhold        func() bool // no further batch is produced once this reports true (the query has failed)
 }
 
 func (g *gatedRun) cb(name string) error {
@@ -94,7 +101,7 @@ func (g *gatedRun) cb(name string) error {
 
 // setup connects (ungated) and prepares query + server script for the scenario.
 func newGatedRun(rt *rapid.T, sc scenario, serverItems func(g *gatedRun) []simnet.Step) *gatedRun {
-	g := &gatedRun{rt: rt, sc: sc, failCbAt: -1, cbErr: fmt.Errorf("callback failure"), ranAfter: map[string]bool{}, doneCh: make(chan struct{})}
+	g := &gatedRun{rt: rt, sc: sc, failCbAt: -1, cbErr: fmt.Errorf("callback failure"), ranAfter: map[string]bool{}, doneCh: make(chan struct{}), batchReady: make(chan struct{})}
 	g.sched = &simnet.Sched{}
 	g.e = newEnv(54460)
 	g.e.conn.Sched = g.sched
@@ -141,6 +148,15 @@ func newGatedRun(rt *rapid.T, sc scenario, serverItems func(g *gatedRun) []simne
 					c.col.Column().Reset()
 				}
 				return fmt.Errorf("done: %w", io.EOF)
+			}
+			if sc.producerWaits {
+				g.producerWaiting = true
+				select {
+				case <-ctx.Done():
+					g.producerWaiting = false
+					return ctx.Err()
+				case <-g.batchReady:
+				}
 			}
 			for _, c := range kinds {
 				c.col.Column().Reset()
@@ -245,6 +261,9 @@ func (g *gatedRun) schedule(extra func() []schedAction, bound time.Duration) {
 		}
 		if extra != nil {
 			acts = append(acts, extra()...)
+		}
+		if g.producerWaiting && (g.withhold == nil || !g.withhold()) {
+			acts = append(acts, schedAction{"batch-ready", func() { g.producerWaiting = false; g.batchReady <- struct{}{} }})
 		}
 		if len(acts) == 0 {
 			// Everything is blocked on timers or I/O: let virtual time run to the next timer.
